@@ -127,8 +127,11 @@ class Struct:
 
 
 class Enum:
-    def __init__(self, file, name, derive=None):
+    def __init__(self, file, name, derive=None, strip_attrs=False, default_features=()):
         self.file, self.name, self.derive = file, name, derive
+        # rule E4: attributes on variants / fields (`#[error(..)]`, `#[from]`) are dropped; a variant gated by `#[cfg(feature = "F")]` is dropped when F is not among
+        # the crate's default features (the configuration the properties are about), kept otherwise
+        self.strip_attrs, self.default_features = strip_attrs, default_features
 
 
 class CastSites:
@@ -847,6 +850,11 @@ class Extractor:
         s, kw, e = found
         body = text[toks[kw].s:toks[e - 1].e]
         body = re.sub(r'^\s*///.*\n', '', body, flags=re.M)
+        if edef.strip_attrs:
+            def gated(m):
+                return '' if m.group(1) not in edef.default_features else m.group(2)
+            body = re.sub(r'#\[cfg\(feature\s*=\s*"([^"]+)"\)\]\s*((?:#\[[^\]]*\]\s*)*\w+\s*(?:\([^()]*\))?\s*,)', gated, body)
+            body = re.sub(r'#\[[^\]]*\]\s*', '', body)
         keep = [d for d in (edef.derive or [])]
         res = ('#[derive(%s)]\n' % ', '.join(keep) if keep else '') + 'pub ' + body + '\n'
         self.log('E4', 'enum %s (%s)' % (edef.name, edef.file), 'derives/doc comments', 'dropped; pub')
